@@ -2,7 +2,8 @@
 (***************************************************************************)
 (* C15 trace validation (impl -> spec).  Consumes the ndjson file recorded *)
 (* by the harness crate c15 from the real smartcore::metrics functions on  *)
-(* f64 and f32 vectors, one independent event per step, and evaluates the  *)
+(* f64 and f32 Vec vectors and on owned ndarray vectors with a negative    *)
+(* stride (ty "nd64"), one independent event per step, and evaluates the  *)
 (* definitions of Metrics.tla on each.  Never blocks: a failing event      *)
 (* prints <<"BAD", line, run, ev, clause>> and is counted.                 *)
 (*                                                                         *)
@@ -21,7 +22,13 @@
 (*     exact denominator 0                 statement silent (Unconstrained)*)
 (*     otherwise   status "ok", fin, and Close(out, Expected) (Value)      *)
 (* HCV event: see Metrics!HcvVerdict.                                      *)
-(* ArgSort event: Metrics!IsArgSort.                                       *)
+(* ArgSort event: Metrics!IsArgSort; fam = "killer" marks the adversarial   *)
+(*   orders (median-of-three killers, partition tree a chain ~n/2 deep) on *)
+(*   which a sort with a bounded explicit stack must still return (a panic *)
+(*   is status "panic" and is rejected: Returns:argsort / Returns:auc).    *)
+(* Size ladder: every metric is also called at lengths 255..1024 around    *)
+(*   the multiples of 256 (the statement speaks of every pair of equal-    *)
+(*   length vectors); the rational definitions are evaluated at full size. *)
 (* hits counts, per metric, the constrained evaluations, and separately    *)
 (* the interesting input classes (ties in AUC scores, degenerate class     *)
 (* balance, single-class labellings, dyadic tables) for the vacuity check. *)
@@ -37,7 +44,8 @@ Hit(h, name) == [h EXCEPT ![name] = @ + 1]
 HitIf(h, cond, name) == IF cond THEN Hit(h, name) ELSE h
 MetricNames == {"accuracy", "precision", "recall", "fbeta", "auc", "mse", "mae", "r2"}
 HitNames == MetricNames \cup
-            {"LengthMismatch", "Unconstrained", "AucTies", "AucConstant", "SinglePosOrNeg", "Scaled", "Offset", "AucScaled", "AucNeighbours", "AucCloserThanEps", "R2ScaledFar",
+            {"LengthMismatch", "Unconstrained", "AucTies", "AucConstant", "SinglePosOrNeg", "Scaled", "Offset", "AucScaled", "AucNeighbours", "AucCloserThanEps", "R2ScaledFar", "AucKiller", "ArgSortKiller",
+             "LengthLadder", "BlockMultiple", "HcvLadder", "NdStrided", "HcvNdStrided",
              "Expect", "Drift", "HCV", "HcvSingleClass", "HcvPure", "HcvMixed", "HcvDyadic",
              "HcvDyadicMixed", "HcvIndependent", "HcvIdentical", "ArgSort", "ArgSortLong"}
 
@@ -90,7 +98,12 @@ StepMetric(e) ==
         h5e == HitIf(h5d, con /\ e.name = "auc" /\ (e.fam = "nextafter" \/ (e.fam = "scaled" /\ e.e < 0)) /\
                           (\E p \in Pos(e.a), q \in Neg(e.a) : e.b[p] # e.b[q]), "AucCloserThanEps")
         h5f == HitIf(h5e, con /\ e.name = "r2" /\ Abs(e.e) >= 40, "R2ScaledFar")
-        h6 == HitIf(h5f, e.hasExpect, "Expect")
+        h5g == HitIf(h5f, con /\ e.name = "auc" /\ e.fam = "killer", "AucKiller")
+        (* size ladder: lengths around and at multiples of 256 *)
+        h5h == HitIf(h5g, con /\ Len(e.a) >= 255, "LengthLadder")
+        h5i == HitIf(h5h, con /\ Len(e.a) >= 256 /\ Len(e.a) % 256 = 0, "BlockMultiple")
+        h5j == HitIf(h5i, con /\ e.ty = "nd64", "NdStrided")
+        h6 == HitIf(h5j, e.hasExpect, "Expect")
         (* the design model's rational differs from the definition's: cannot happen unless
            the replay file is stale; counted as drift *)
         h7 == HitIf(h6, e.hasExpect /\ con /\ ~RatEq(<<e.xnum, e.xden>>, r), "Drift")
@@ -119,13 +132,15 @@ StepHcv(e) ==
                         (\A x \in CA, y \in CB :
                             Len(e.a) * t[<<x, y>>] = RowSum(t, CA, CB)[x] * ColSum(t, CA, CB)[y]), "HcvIndependent")
         h8 == HitIf(h7, wf /\ SameByRelabelling(e.a, e.b) /\ Cardinality(CA) > 1, "HcvIdentical")
-    IN  /\ hits' = h8
+        h9 == HitIf(h8, wf /\ Len(e.a) >= 255, "HcvLadder")
+        h10 == HitIf(h9, wf /\ e.ty = "nd64", "HcvNdStrided")
+    IN  /\ hits' = h10
         /\ IF v = "" THEN nbad' = nbad ELSE Bad(e, v) /\ nbad' = nbad + 1
 
 StepArgSort(e) ==
     LET v == IF e.status # "ok" THEN "Returns:argsort"
              ELSE IF ~IsArgSort(e.x, e.sorted, e.index) THEN "IsArgSort" ELSE ""
-    IN  /\ hits' = HitIf(Hit(hits, "ArgSort"), Len(e.x) >= 8, "ArgSortLong")
+    IN  /\ hits' = HitIf(HitIf(Hit(hits, "ArgSort"), Len(e.x) >= 8, "ArgSortLong"), e.fam = "killer", "ArgSortKiller")
         /\ IF v = "" THEN nbad' = nbad ELSE Bad(e, v) /\ nbad' = nbad + 1
 
 Step ==
